@@ -438,6 +438,35 @@ pub fn run(args: &Args) -> i32 {
                             report.violation(one, &what, witness(json!({"returned": trunc(&got, 10), "expected": expected.len()})));
                         }
                     }
+                    // BM25 calibration (measured, not enforced): fresh single index, no unindexed rows, no
+                    // deletes, OR queries without limit. Reference: idf = ln((N-n+.5)/(n+.5)+1),
+                    // (k1+1) f / (f + k1 (1 - b + b |d|/avgdl)), k1 = 1.2, b = 0.75.
+                    if history.is_empty() && qkind == "or" && limit.is_none() && gset == expected && got.len() >= 2 {
+                        let qt: BTreeSet<String> = tokenize(base, &text).into_iter().collect();
+                        for (variant, count_all) in [("docs_with_tokens", false), ("all_rows", true)] {
+                            let pop: Vec<&Vec<String>> = docs.values().filter(|d| count_all || !d.is_empty()).collect();
+                            let n_docs = pop.len() as f64;
+                            let avgdl = pop.iter().map(|d| d.len() as f64).sum::<f64>() / n_docs.max(1.0);
+                            let score = |d: &Vec<String>| -> f64 {
+                                qt.iter()
+                                    .map(|t| {
+                                        let n = pop.iter().filter(|x| x.contains(t)).count() as f64;
+                                        if n == 0.0 {
+                                            return 0.0;
+                                        }
+                                        let f = d.iter().filter(|x| *x == t).count() as f64;
+                                        let idf = ((n_docs - n + 0.5) / (n + 0.5) + 1.0).ln();
+                                        idf * (2.2 * f) / (f + 1.2 * (0.25 + 0.75 * d.len() as f64 / avgdl))
+                                    })
+                                    .sum()
+                            };
+                            let refs: Vec<f64> = got.iter().map(|(i, _)| score(&docs[i])).collect();
+                            let order_ok = refs.windows(2).all(|w| w[0] >= w[1] - 1e-4 * (1.0 + w[1].abs()));
+                            let values_ok = got.iter().zip(&refs).all(|((_, s), r)| ((*s as f64) - r).abs() <= 1e-3 * (1.0 + r.abs()));
+                            report.count(&format!("bm25_{variant}_order_{}", if order_ok { "agrees" } else { "differs" }), 1);
+                            report.count(&format!("bm25_{variant}_scores_{}", if values_ok { "agree" } else { "differ" }), 1);
+                        }
+                    }
                     let shape = format!(
                         "{base}|{state_kind}|{qkind}{}|{}|unindexed={unindexed}|v{}|m{}|{}",
                         tokenize(base, &text).len(),
